@@ -726,6 +726,11 @@ def _fde_options(sh, params):
                         "T0": T0S[i % 3], "rolloff": ROLLOFF[i % 7],
                         "hpfilter": HPF[(i // 7 + i) % 2],
                         "winends": WINENDS[(i // 3) % 3], "idx": i})
+        # every slice, every seed: the three runs in which `detrend` / `ppc` decide
+        # (no detrending at all; 10 pts/cycle with ppc=8; 15 pts/cycle with ppc=20)
+        for idx, roll in ((2, "none"), (22, "lanczos"), (28, "fft")):
+            out.append({"resp": RESP[(s + idx) % 2], "nbins": NBINS[s % 4], "T0": T0S[s % 3],
+                        "rolloff": roll, "hpfilter": None, "winends": None, "idx": idx})
         return out
     prod = list(itertools.product(RESP, NBINS, T0S, ROLLOFF, HPF, WINENDS))
     r = core.rng(sh.seed, "C10", "fde-product")
@@ -769,8 +774,8 @@ def _record(r, np, o):
     sig = r.standard_normal(n)
     sig += float(r.uniform(0, 2)) * np.sin(2 * np.pi * float(r.uniform(10, 40)) * t)
     sig += float(r.uniform(-1, 1)) + float(r.uniform(-1, 1)) * t      # offset + trend
-    up = (o["idx"] // 7) % 3                            # 0: no up-sampling needed
-    fmax = sr / [20.0, 6.5, 3.4][up]
+    up = (o["idx"] // 7) % 5                            # 0: no up-sampling needed
+    fmax = sr / [20.0, 6.5, 3.4, 10.0, 15.0][up]        # 10, 15: decided by `ppc` (8 / 20)
     freq = np.unique(np.round([10.0 + float(r.uniform(0, 5)), fmax / 2.7, fmax], 3))
     if o["idx"] % 4 == 1:
         # analysis frequencies typed in as whole numbers (np.arange(20, 60, 10)): an
@@ -782,9 +787,19 @@ def _record(r, np, o):
     return sig, sr, freq, Q
 
 
+def _ppc(o):
+    return [12, 12, 8, 20, 12][o["idx"] % 5]
+
+
+def _detrend(o):
+    return o["idx"] % 3 != 2
+
+
 def _kwargs(o):
     kw = {"resp": o["resp"], "nbins": o["nbins"], "T0": o["T0"],
-          "hpfilter": o["hpfilter"], "parallel": "no", "ppc": 12}
+          "hpfilter": o["hpfilter"], "parallel": "no", "ppc": _ppc(o)}
+    if not _detrend(o):
+        kw["detrend"] = False
     kw["rolloff"] = _callable_roll if o["rolloff"] == "callable" else o["rolloff"]
     if o["winends"] == "dict":
         kw["winends"] = ({"portion": 20, "ends": "both"} if o["idx"] % 2
@@ -1014,7 +1029,9 @@ def _g2_geometry(sh, rep, np, case, tags, ba, cnt, pk):
 
 def _preprocessing(sh, rep, cp, np, case, tags, sig, sr, freq, o, kw, fde):
     import scipy.signal as ss
-    ppc = 12
+    ppc = _ppc(o)
+    sh.count("opt:ppc=%d" % ppc)
+    sh.count("opt:detrend=%s" % _detrend(o))
     curppc = sr / freq.max()
     roll = o["rolloff"]
     upsampled = roll not in ("none", None, "prefilter") and curppc < ppc
@@ -1028,7 +1045,10 @@ def _preprocessing(sh, rep, cp, np, case, tags, sig, sr, freq, o, kw, fde):
         return
     x = np.asarray(sig, float)
     win, hp = kw["winends"], kw["hpfilter"]
-    x = ss.detrend(x)         # detrend=True in every run
+    if _detrend(o) or win is not None or hp is not None:
+        x = ss.detrend(x)     # documented: also whenever the ends are windowed / filtered
+    else:
+        sh.count("cell:fde-not-detrended")
     n = x.size
     if win == "auto":
         x = x * cp.front_window(n, min(int(0.25 * sr), 50, n))
